@@ -2,6 +2,9 @@ use crate::debugger::error::Error;
 use crate::debugger::error::Error::{Ptrace, RegisterNotFound};
 use gimli::Register as DwarfRegister;
 use nix::libc::user_regs_struct;
+#[cfg(feature = "verif")]
+use crate::verif::sys;
+#[cfg(not(feature = "verif"))]
 use nix::sys;
 use nix::unistd::Pid;
 use smallvec::{SmallVec, smallvec};
@@ -392,6 +395,9 @@ pub mod debug {
     use crate::debugger::Error;
     use crate::debugger::Error::Ptrace;
     use bit_field::BitField;
+    #[cfg(feature = "verif")]
+    use crate::verif::sys;
+    #[cfg(not(feature = "verif"))]
     use nix::sys;
     use nix::sys::ptrace::AddressType;
     use nix::unistd::Pid;
@@ -471,6 +477,18 @@ pub mod debug {
         /// This is not supported by `x86_64` processors,
         /// but is recommended to be enabled for backward and forward compatibility.
         const GLOBAL_EXACT_BREAKPOINT_ENABLE_BIT: usize = 9;
+
+        /// Verification accessor: raw DR7 image.
+        #[cfg(feature = "verif")]
+        pub fn verif_raw(&self) -> usize {
+            self.0
+        }
+
+        /// Verification constructor: DR7 from a raw image.
+        #[cfg(feature = "verif")]
+        pub fn verif_from_raw(raw: usize) -> Self {
+            Self(raw)
+        }
 
         /// Return true if breakpoint enabled.
         ///
